@@ -776,6 +776,14 @@ def check_seeded(run):
             allops = c["setup"] + c["ops"]
             j = max(i for i, o in enumerate(allops) if isinstance(o, list) and o[0] == "call")
             tail = allops[j + 1:]
+            # the call itself must have succeeded: when the argument cannot even be constructed (PChanged over an empty input
+            # raises StopIteration in its constructor) set_pattern never ran and the object is still the old reference
+            # (false alarm of the thorough tier, seed 1: PRef(PChanged(PSequence([], 3))))
+            if j >= len(c["setup"]):
+                ev = out["events"][j - len(c["setup"])]
+                if not (isinstance(ev, dict) and "y" in ev):
+                    run.discard("set_pattern: the call raised (argument not constructible)")
+                    continue
             obs = out["events"][max(0, j + 1 - len(c["setup"])):]
             pops = [("next", 0) if o == "next" else ("reset", 0) if o[0] == "reset" else ("all", 0, o[1]) for o in tail]
             mc = Case(E("PRef", c["model"][1]), pops, "set_pattern")
